@@ -17,6 +17,8 @@ def check(tree, rep, tier='quick', seed=0):
     R.k12_schedule_once(core, rep)
     R.k15_no_live_generator(core, rep)
     R.k8_input_store_writes(core, rep)
+    R.k7_missing_key_raises(core, rep)   # a stored line never reads as missing again (a released waiter would wait forever)
+    R.k20_ctrl_c(core, rep)              # the prompt loop ends on end-of-input instead of asking again for ever
     R.k18_cli_store_identity(core, rep)  # an answer marked met is really stored: otherwise the same question returns every round
     R.k24_tracker_shape(core, rep)
     R.k24e_waiters_only_tracker_mutates(core, rep)
